@@ -309,6 +309,58 @@ MUTANTS = {
         QO + "multiplier_impl.py",
         'if any(s in weight_quantizer.name for s in ["binary", "ternary"]):',
         'if weight_quantizer.name in ("binary", "ternary"):')]),
+    "m63_auto_po2_fraction_uses_max_shift": dict(expect=["C18"], edits=[E(
+        "qkeras/qtools/qtools_util.py",
+        "      max_fractional_bits = bits - int_bits - min_shift",
+        "      max_fractional_bits = bits - int_bits - max_shift")]),
+    "m64_fused_accumulator_adjusts_original": dict(expect=["C18"], edits=[E(
+        "qkeras/qtools/qtools_util.py",
+        "  fused_multiplier = copy.deepcopy(multiplier)",
+        "  fused_multiplier = multiplier")]),
+    "m65_fused_accumulator_entry_plain": dict(expect=["C18"], edits=[E(
+        "qkeras/qtools/generate_layer_data_type_map.py",
+        "          fused_accumulator = qtools_util."
+        "adjust_accumulator_for_auto_po2(\n              layer, multiplier, "
+        "qkeras_weight_quantizer, bias_quantizer)",
+        "          fused_accumulator = qtools_util."
+        "adjust_accumulator_for_auto_po2(\n              layer, multiplier, "
+        "qkeras_weight_quantizer, None)")]),
+    "m66_qactivation_edge_gets_string": dict(expect=["C18"], edits=[E(
+        "qkeras/qtools/qgraph.py",
+        "          result = layer.quantizer\n",
+        "          result = layer.activation\n")]),
+    "m67_only_last_edge_updated": dict(expect=["C18"], edits=[E(
+        "qkeras/qtools/qgraph.py",
+        "      graph[u][v][\"quantizer\"] = result\n      # all "
+        "edge_quantizer is the same for all edges starting\n      # from "
+        "current vertex to different nodes\n      graph.nodes[vertex]"
+        "[\"out_quantizer\"] = result\n",
+        "    graph[u][v][\"quantizer\"] = result\n    # all "
+        "edge_quantizer is the same for all edges starting\n    # from "
+        "current vertex to different nodes\n    graph.nodes[vertex]"
+        "[\"out_quantizer\"] = result\n")]),
+    "m68_act_size_softmax_uses_input_bits": dict(expect=["C20"], edits=[E(
+        "qkeras/autoqkeras/forgiving_metrics/forgiving_bits.py",
+        "        if is_softmax:\n          bits = o_size\n",
+        "        if is_softmax:\n          bits = i_size\n")]),
+    "m69_activation_total_ignores_selection": dict(expect=["C20"], edits=[E(
+        "qkeras/autoqkeras/forgiving_metrics/forgiving_bits.py",
+        "        a_size += a_weight * activations\n",
+        "        a_size += activations\n")]),
+    "m70_score_penalises_instead_of_rewarding": dict(expect=["C20"], edits=[E(
+        "qkeras/autoqkeras/autoqkeras_internal.py",
+        "      return K.cast(metric * (1.0 + delta), K.floatx())",
+        "      return K.cast(metric * (1.0 - delta), K.floatx())")]),
+    "m71_frozen_scale_not_divided_by_m": dict(expect=["C14", "C05"], edits=[E(
+        Q, "        scale = self.scale / m\n", "        scale = self.scale\n")]),
+    "m72_freeze_helper_stores_other_scale": dict(expect=["C14"], edits=[E(
+        U, '      q_cfg["post_training_scale"] = q.scale.numpy()\n',
+        '      q_cfg["post_training_scale"] = q.scale.numpy() * 2\n')]),
+    "m73_freeze_depthwise_under_kernel_key": dict(expect=["C14"], edits=[E(
+        U, '      layer_cfg["depthwise_quantizer"][\n          "config"] = '
+        'depthwise_quantizer.get_config()',
+        '      layer_cfg["kernel_quantizer"][\n          "config"] = '
+        'depthwise_quantizer.get_config()')]),
 }
 
 BENIGN = {
@@ -489,4 +541,11 @@ BENIGN = {
         QO + "multiplier_impl.py",
         "      if weight_quantizer.mode == 4:",
         "      if getattr(weight_quantizer, \"use_01\", False):")]),
+    "b29_auto_po2_shift_names": dict(props=["C18"], edits=[E(
+        "qkeras/qtools/qtools_util.py",
+        "      max_fractional_bits = bits - int_bits - min_shift\n      "
+        "max_int_bits = int_bits + max_shift\n      total_bits = "
+        "max_int_bits + max_fractional_bits\n",
+        "      max_int_bits = int_bits + max_shift\n      "
+        "total_bits = max_int_bits + (bits - int_bits) - min_shift\n")]),
 }
